@@ -75,6 +75,14 @@ def job_derive(job):
                 lines.append(derive.derive_line(g, L, known2, grid, "to_undirected", {"recip": True}, rng=rng, mutate=True, with_battery=not big))
             else:
                 lines.append(derive.derive_line(g, L, known2, grid, "to_directed", {}, rng=rng, mutate=True, with_battery=not big))
+            if not big:
+                # beyond the listed properties (clauses X01_*: reported in the evidence, never a violation)
+                nb = rng.sample(known2, rng.randint(1, len(known2))) + ([max(known2) + 5] if rng.random() < 0.3 else [])
+                L.node(max(known2) + 5)
+                lines.append(derive.derive_line(g, L, known2, grid, "subgraph", {"nb": nb, "form": rng.choice(["method", "function"])},
+                                                rng=rng, with_battery=False))
+                lines.append(derive.derive_line(g, L, known2, grid, "empty_copy", {"withdata": rng.random() < 0.5}, rng=rng,
+                                                with_battery=False))
 
     emit(tier)
     if not big and rng.random() < 0.3:
